@@ -5,7 +5,8 @@ from vlib import common
 
 THEOREMS = ["C10_dc_blocks_exact", "C10_basis_table", "C10_zero_block", "C10_annexA_sample_in_kernel",
             "C10_full_blocks_accurate", "C10_full_blocks_peak_error",
-            "C10_first_row_blocks_accurate", "C10_first_column_blocks_accurate"]
+            "C10_first_row_blocks_accurate", "C10_first_column_blocks_accurate",
+            "C10_classified_blocks_peak_error", "C10_decoded_block_accurate"]
 BRIDGES = ["BridgeTables"]
 VT = "python3-vt"
 
